@@ -186,6 +186,13 @@ func vSchedPolicy(p int) {}
 // vWatchStore registers a monitor run right after program code stores to the named struct field (engine only).
 func vWatchStore(field string, fn func(obj any)) {}
 
+// Name-based access to private identifiers of the package under test (engine only): a package variable, a new struct
+// (pointer) with one field set, a field of a pointed-to struct (nil for a nil pointer), a package-level function.
+func vPkgVar(name string) any                        { panic("vPkgVar is engine-only") }
+func vNewStruct(typeName, field string, val any) any { panic("vNewStruct is engine-only") }
+func vFieldOf(ptr any, field string) any             { panic("vFieldOf is engine-only") }
+func vPkgFunc(name string, args ...any) any          { panic("vPkgFunc is engine-only") }
+
 // vCallMethod calls a method of the code under test by name (engine only) and returns its first result, nil if it has
 // none; used for private functions whose signature a change may alter, so that the harnesses keep compiling.
 func vCallMethod(recv any, name string, args ...any) any {
